@@ -599,7 +599,7 @@ def gen_points(c):
     pts = []
     quick = c.tier == 'quick'
     # --- all multiples of pi/12 up to 100 pi (thorough: 1000 pi), both signs
-    K = 1200 if quick else 12000
+    K = 1200 if quick else 4800
     for k in range(-K, K + 1):
         for f in ('sin', 'cos'):
             t = trip(Fraction(k, 12))
